@@ -74,6 +74,22 @@ impl Default for Baseline {
     }
 }
 
+/// Keys do not carry the leading `./` of a path walked from the project root.
+fn normalize_key(path: &str) -> &str {
+    match path.strip_prefix("./") {
+        Some(rest) if !rest.is_empty() => rest,
+        _ => path,
+    }
+}
+
+/// The key under which a path is recorded: forward slashes and no leading `./`, so that an
+/// entry written while checking the whole project is found when a sub-directory is checked.
+#[must_use]
+pub fn baseline_key(path: &Path) -> String {
+    let spelled = path.to_string_lossy().replace('\\', "/");
+    normalize_key(&spelled).to_string()
+}
+
 impl Baseline {
     #[must_use]
     pub fn new() -> Self {
@@ -105,7 +121,16 @@ impl Baseline {
         crate::verif_hooks::point("load.locked", path);
 
         let reader = BufReader::new(&file);
-        Ok(serde_json::from_reader(reader)?)
+        let mut baseline: Self = serde_json::from_reader(reader)?;
+        // Entries written by a run that walked `./src/a.rs` and by one that walked `src/a.rs`
+        // are the same entry.
+        if baseline.files.keys().any(|k| k.starts_with("./")) {
+            baseline.files = std::mem::take(&mut baseline.files)
+                .into_iter()
+                .map(|(k, v)| (normalize_key(&k).to_string(), v))
+                .collect();
+        }
+        Ok(baseline)
     }
 
     /// Save baseline to a JSON file using atomic write pattern.
@@ -137,8 +162,10 @@ impl Baseline {
 
     /// Add or update a content entry in the baseline.
     pub fn set_content(&mut self, path: &str, lines: usize, hash: String) {
-        self.files
-            .insert(path.to_string(), BaselineEntry::content(lines, hash));
+        self.files.insert(
+            normalize_key(path).to_string(),
+            BaselineEntry::content(lines, hash),
+        );
     }
 
     /// Add or update a structure entry in the baseline.
@@ -149,31 +176,31 @@ impl Baseline {
         count: usize,
     ) {
         self.files.insert(
-            path.to_string(),
+            normalize_key(path).to_string(),
             BaselineEntry::structure(violation_type, count),
         );
     }
 
     /// Add or update an entry in the baseline.
     pub fn set(&mut self, path: &str, entry: BaselineEntry) {
-        self.files.insert(path.to_string(), entry);
+        self.files.insert(normalize_key(path).to_string(), entry);
     }
 
     /// Get a file entry from the baseline.
     #[must_use]
     pub fn get(&self, path: &str) -> Option<&BaselineEntry> {
-        self.files.get(path)
+        self.files.get(normalize_key(path))
     }
 
     /// Remove a file entry from the baseline.
     pub fn remove(&mut self, path: &str) -> Option<BaselineEntry> {
-        self.files.remove(path)
+        self.files.remove(normalize_key(path))
     }
 
     /// Check if a file exists in the baseline.
     #[must_use]
     pub fn contains(&self, path: &str) -> bool {
-        self.files.contains_key(path)
+        self.files.contains_key(normalize_key(path))
     }
 
     /// Get all file entries in the baseline.
